@@ -44,6 +44,12 @@ func RemoveUnusedOutputs(topCalls StringSet, asts []*syntax.Ast) Edit {
 			}
 		}
 	}
+	// The calls made inside a pipeline use their arguments whether or not
+	// anything refers to that pipeline's own outputs (it may have none).
+	called := make(map[decId]struct{}, len(outputs))
+	for _, pipe := range usedPipes {
+		useCalledPipelines(pipe, called, usedPipes, outputs)
+	}
 	for len(usedPipes) > 0 && len(outputs) > 0 {
 		newUsed := make(map[decId]*syntax.Pipeline,
 			len(asts[0].Pipelines)+len(usedPipes))
@@ -131,6 +137,38 @@ func usePipeOuts(pipe *syntax.Pipeline,
 		if call.Modifiers != nil && call.Modifiers.Bindings != nil {
 			removeBoundCallRefs(call.Modifiers.Bindings, pipe.Callables.Table,
 				usedPipes, outputs)
+		}
+	}
+}
+
+// useCalledPipelines marks as used the outputs which are bound to call
+// arguments, modifiers or retains in the pipelines called, directly or
+// indirectly, by the given pipeline.
+func useCalledPipelines(pipe *syntax.Pipeline,
+	seen map[decId]struct{},
+	usedPipes map[decId]*syntax.Pipeline,
+	outputs map[decId]StringSet) {
+	for _, callable := range pipe.Callables.Table {
+		if p, ok := callable.(*syntax.Pipeline); ok && p != nil {
+			dec := makeDecId(p)
+			if _, ok := seen[dec]; ok {
+				continue
+			}
+			seen[dec] = struct{}{}
+			if p.Retain != nil {
+				for _, ref := range p.Retain.Refs {
+					removeCallRef(ref, p.Callables.Table, usedPipes, outputs)
+				}
+			}
+			for _, call := range p.Calls {
+				removeBoundCallRefs(call.Bindings, p.Callables.Table,
+					usedPipes, outputs)
+				if call.Modifiers != nil && call.Modifiers.Bindings != nil {
+					removeBoundCallRefs(call.Modifiers.Bindings,
+						p.Callables.Table, usedPipes, outputs)
+				}
+			}
+			useCalledPipelines(p, seen, usedPipes, outputs)
 		}
 	}
 }
